@@ -309,16 +309,28 @@ class Paths:
         arms = n["arms"]
         if v[0] == "sym":
             seen = set()
+            guarded_vals = {}
             for a in arms:
-                if a.get("guard"):
-                    raise Unsupported(n, "guarded arm on a byte that was read")
                 pats = a["pat"]["pats"] if a["pat"].get("k") == "Or" else [a["pat"]]
+                if a.get("guard") and not all(p.get("k") == "Lit" for p in pats):
+                    raise Unsupported(n, "guarded non-literal arm on a byte that was read")
                 for p in pats:
                     if p.get("k") == "Lit" and p["e"].get("lit") in ("int", "char"):
                         val = p["e"]["v"]
+                        if val in seen:
+                            continue
                         s2 = st.constrain(v, ("eq", val))
+                        if a.get("guard"):
+                            # `LIT if g => ..`: taken when g holds; otherwise a later arm for the same byte (or the default) applies
+                            txt = tir.pretty(a["guard"])[:80]
+                            guarded_vals.setdefault(val, []).append(txt)
+                            if s2 is not None:
+                                yield from self.ev(a["body"], s2.guard(txt, True))
+                            continue
                         seen.add(val)
                         if s2 is not None:
+                            for g in guarded_vals.get(val, []):
+                                s2 = s2.guard(g, False)
                             yield from self.ev(a["body"], s2)
                     elif p.get("k") == "Range":
                         raise Unsupported(n, "range pattern on a byte that was read")
